@@ -19,6 +19,12 @@ Exhaustive sweeps of the domain shared with `datetime`:
              signed -YYYY / 0000 year rule, no information lost below the pattern's own capability (the finest form it
              writes for a fully detailed value), own reader and stdlib reader agree - over years {min, -43, -1, 0, 1, ...}
              x times whose minute / second are 0 and whose fraction is 1 ns, 999 ns, 1 us, 999,999 ns, 1 ms, ...
+  ambient    every ISO built-in and every route to an ISO standard letter (format(v, letter), create(letter, culture),
+             create_with_current_culture, with_culture, and repr / str / format(v, '') where they give an ISO letter's
+             text) repeated with CultureInfo.current_culture in {fi-FI, da-DK, th-TH, ko-KR, ar-SA}: same text, and the
+             ISO text still parses
+  consecutive  values with equal hash() but different value (found at run time on a lattice) formatted back to back
+             through each built-in
   beyond     years <= 0 (outside the shared domain): sign and width rule '-YYYY', round trip inside the library
 
 Direction matters: text written by the standard library (variable-length fraction, none when zero) is parsed with the
@@ -673,6 +679,133 @@ def builtins_worker(idx):
 
 
 # ---------------------------------------------------------------------------------------------------------------
+# ambient culture x all routes: ISO text must not depend on CultureInfo.current_culture or on the route taken
+# ---------------------------------------------------------------------------------------------------------------
+
+AMBIENT_CULTURES = ("fi-FI", "da-DK", "th-TH", "ko-KR", "ar-SA")
+# standard letters documented as culture-invariant ISO / round-trip patterns (the parsers return the invariant
+# built-in implementations for them)
+ISO_LETTERS = {"date": "Rr", "time": "oO", "datetime": "oOrRsS", "instant": "g", "annual": "G"}
+
+
+def ambient_values(kind):
+    from pyoda_time import AnnualDate, Duration
+    t1, t2 = LocalTime.from_hour_minute_second_nanosecond(23, 59, 58, 0), LocalTime.from_hour_minute_second_nanosecond(1, 2, 3, 120_000_000)
+    if kind == "date":
+        return [LocalDate(2024, 2, 29), LocalDate(1, 1, 1), LocalDate(-43, 3, 15), LocalDate(9999, 12, 31)]
+    if kind == "time":
+        return [t1, t2, LocalTime(0, 0, 0), LocalTime(12, 30, 0)]
+    if kind == "datetime":
+        return [LocalDate(2024, 2, 29) + t1, LocalDate(-43, 3, 15) + t2, LocalDate(9999, 12, 31) + LocalTime(12, 0, 0)]
+    if kind == "instant":
+        return [Instant.from_utc(2024, 2, 29, 23, 59, 58), Instant.from_utc(-43, 3, 15, 1, 2, 3).plus_nanoseconds(120_000_000), Instant.from_utc(1970, 1, 1, 12, 30, 0)]
+    if kind == "offset":
+        return [Offset.from_seconds(x) for x in (0, 19800, -3600, 45296, -64800)]
+    if kind == "duration":
+        return [Duration.from_nanoseconds(x) for x in (0, 90061 * 10**9 + 500_000_000, -1, 86400 * 10**9)]
+    return [AnnualDate(2, 29), AnnualDate(12, 31)]
+
+
+def _routes(kind, cul):
+    """[(route label, callable value -> text, pattern or None)] that are documented / measured to be ISO-invariant."""
+    cls = getattr(_tx, PATTERN_CLASSES[kind])
+    routes = []
+    for k, name, pat in builtin_patterns():
+        if k == kind:
+            routes.append(("%s.%s" % (PATTERN_CLASSES[kind], name), pat.format, pat, None))
+    for L in ISO_LETTERS.get(kind, ""):
+        routes.append(("format(value, %r)" % L, (lambda v, L=L: format(v, L)), None, L))
+        routes.append(("create(%r, culture)" % L, None, (lambda L=L: cls.create(L, cul)), L))
+        routes.append(("create_with_current_culture(%r)" % L, None, (lambda L=L: cls.create_with_current_culture(L)), L))
+        routes.append(("create_with_invariant_culture(%r).with_culture" % L, None, (lambda L=L: cls.create_with_invariant_culture(L).with_culture(cul)), L))
+    return routes
+
+
+def ambient_worker(cname):
+    from pyoda_time._compatibility._culture_info import CultureInfo
+    acc = Acc()
+    cul = CultureInfo.get_culture_info(cname)
+    for kind in PATTERN_CLASSES:
+        cls = getattr(_tx, PATTERN_CLASSES[kind])
+        values = ambient_values(kind)
+        # references, under the process's default culture
+        ref = {}
+        for k, name, pat in builtin_patterns():
+            if k == kind:
+                ref["%s.%s" % (PATTERN_CLASSES[kind], name)] = [pat.format(v) for v in values]
+        for L in ISO_LETTERS.get(kind, ""):
+            ref[L] = [cls.create_with_invariant_culture(L).format(v) for v in values]
+        # which default to-string routes claim an ISO letter's text
+        defaults = []
+        for rname, fn in (("repr(value)", repr), ("str(value)", str), ("format(value, '')", lambda v: format(v, ""))):
+            for L in ISO_LETTERS.get(kind, ""):
+                try:
+                    if [fn(v) for v in values] == ref[L]:
+                        defaults.append((rname, fn, L))
+                        break
+                except Exception:  # noqa: BLE001
+                    break
+        old = CultureInfo.current_culture
+        try:
+            CultureInfo.current_culture = cul
+            for label, fn, patf, L in _routes(kind, cul):
+                want = ref[L] if L is not None else ref[label]
+                case = {"route": label, "current_culture": cname, "kind": kind}
+                pat = None
+                if fn is None:
+                    pat = guard(acc, "C17/ambient/%s/create" % kind, case, patf)
+                    if pat is None:
+                        continue
+                    fn = pat.format
+                elif patf is not None:
+                    pat = patf
+                for v, w in zip(values, want):
+                    acc.count(states=1, transitions=1, evaluations=1)
+                    t = guard(acc, "C17/ambient/%s/format" % kind, case, lambda: fn(v))
+                    if t is None:
+                        continue
+                    if t != w:
+                        acc.violation("C17/ambient/%s/text-depends-on-culture/%s" % (kind, label),
+                                      "%s under culture %s writes %r; the invariant ISO text is %r" % (label, cname, t, w), dict(case, text=t, expected=w))
+                        break
+                    if pat is not None:
+                        r = guard(acc, "C17/ambient/%s/parse" % kind, dict(case, text=w), lambda: pat.parse(w))
+                        acc.count(transitions=1, evaluations=1)
+                        if r is not None and not r.success:
+                            acc.violation("C17/ambient/%s/iso-text-rejected/%s" % (kind, label),
+                                          "%s under culture %s does not parse the ISO text %r" % (label, cname, w), dict(case, text=w))
+                            break
+                    acc.count(nontrivial=1)
+            for rname, fn, L in defaults:
+                case = {"route": rname, "current_culture": cname, "kind": kind}
+                for v, w in zip(values, ref[L]):
+                    acc.count(states=1, transitions=1, evaluations=1)
+                    t = guard(acc, "C17/ambient/%s/format" % kind, case, lambda: fn(v))
+                    if t is not None and t != w:
+                        acc.violation("C17/ambient/%s/text-depends-on-culture/%s" % (kind, rname),
+                                      "%s under current culture %s gives %r; under the default culture it is the ISO text %r" % (rname, cname, t, w), dict(case, text=t, expected=w))
+                        break
+                    acc.count(nontrivial=1)
+                acc.outcome("default route claiming ISO text: %s of %s" % (rname, kind))
+        finally:
+            CultureInfo.current_culture = old
+    acc.outcome("ambient culture %s: ISO routes invariant" % cname, acc.nontrivial)
+    return acc
+
+
+def consecutive_worker(idx):
+    """Hash-colliding values (found at run time, see c07.collision_groups) formatted back to back through a built-in."""
+    from vf.checks import c07
+    acc = Acc()
+    kind, name, pat = builtin_patterns()[idx]
+    groups = c07.collision_groups(kind)
+    acc.note("hash collision groups " + kind, len(groups))
+    c07.collision_check(acc, "C17/consecutive", kind, "%s.%s" % (PATTERN_CLASSES[kind], name), pat, pat, groups, 600)
+    acc.outcome("consecutive formatting of hash-colliding values agrees (%s: %d groups)" % (kind, len(groups)))
+    return acc
+
+
+# ---------------------------------------------------------------------------------------------------------------
 # beyond the shared domain: years <= 0
 # ---------------------------------------------------------------------------------------------------------------
 
@@ -751,6 +884,14 @@ def run(ctx):
         ctx.note("builtins_count", n)
         for acc in pmap(builtins_worker, range(n)):
             ctx.merge_part("builtins", acc)
+    if not only or "ambient" in only:
+        for acc in pmap(ambient_worker, AMBIENT_CULTURES):
+            ctx.merge_part("ambient", acc)
+    if not only or "consecutive" in only:
+        pats = builtin_patterns()
+        order = sorted(range(len(pats)), key=lambda i: (pats[i][0] not in ("datetime", "instant"), i))
+        for acc in pmap(consecutive_worker, order):
+            ctx.merge_part("consecutive", acc)
     if not only or "beyond" in only:
         for acc in pmap(beyond_worker, [0]):
             ctx.merge_part("beyond", acc)
@@ -773,6 +914,12 @@ def replay(rec) -> bool:
         _fraction_case(a, case["fraction_ns"], 0, case["fraction_ns"] % 1000 == 0)
         _fraction_case(a, case["fraction_ns"], 0, False)
         found.update(a.violations)
+    elif "route" in case:
+        for c in AMBIENT_CULTURES:
+            found.update(ambient_worker(c).violations)
+    elif "group" in case:
+        for i in range(len(builtin_patterns())):
+            found.update(consecutive_worker(i).violations)
     elif "builtin" in case:
         for i in range(len(builtin_patterns())):
             found.update(builtins_worker(i).violations)
